@@ -404,7 +404,9 @@ def check_unzip(r4, f, sp, ctx, items, cfgname):
             while src is not None and src[0] in ("ctor", "cast") and len(src) == 3:
                 src = src[2]
             ok_src = src is not None and src[0] == "mcall" and src[1] == "std::map::begin"
-            adv = [m for m in ctx.mut.get(ij[1], []) if enclosing_loops(f, m)[:1] == [fj[0][2]]]
+            lpn = f.nodes[fj[0][2]]
+            in_loop = {x for part in ("body", "inc") if lpn.get(part) is not None for x, _ in f.walk(lpn[part])}
+            adv = [m for m in ctx.mut.get(ij[1], []) if m in in_loop]
             if ok_src and len(adv) == 1:
                 r4.ok(site, f.loc(fj[0][2]), "jobs[i] = it->first and workers[i] = it->second from the same iterator over the dispatch map, advanced once per entry", cfgname)
             else:
